@@ -592,9 +592,17 @@ int yr_arena_load_stream(YR_STREAM* stream, YR_ARENA** arena)
   }
 
   YR_ARENA_REF reloc_ref;
+  bool end_of_relocs = false;
 
   while (yr_stream_read(&reloc_ref, sizeof(reloc_ref), 1, stream) == 1)
   {
+    // The list of relocations is terminated by a null reference.
+    if (YR_ARENA_IS_NULL_REF(reloc_ref))
+    {
+      end_of_relocs = true;
+      break;
+    }
+
     YR_ARENA_BUFFER* b = &new_arena->buffers[reloc_ref.buffer_id];
 
     if (reloc_ref.buffer_id >= new_arena->num_buffers ||
@@ -617,6 +625,13 @@ int yr_arena_load_stream(YR_STREAM* stream, YR_ARENA** arena)
         yr_arena_make_ptr_relocatable(
             new_arena, reloc_ref.buffer_id, reloc_ref.offset, EOL),
         yr_arena_release(new_arena))
+  }
+
+  // A file that ends before the terminator was truncated.
+  if (!end_of_relocs)
+  {
+    yr_arena_release(new_arena);
+    return ERROR_CORRUPT_FILE;
   }
 
   *arena = new_arena;
@@ -741,6 +756,13 @@ int yr_arena_save_stream(YR_ARENA* arena, YR_STREAM* stream)
 
     reloc = reloc->next;
   }
+
+  // Terminate the list of relocations, so that the loader can tell a
+  // complete file from a truncated one.
+  YR_ARENA_REF end_ref = YR_ARENA_NULL_REF;
+
+  if (yr_stream_write(&end_ref, sizeof(end_ref), 1, stream) != 1)
+    return ERROR_WRITING_FILE;
 
   return ERROR_SUCCESS;
 }
